@@ -559,6 +559,14 @@ func (fc *funcContext) typeName(ty types.Type) string {
 		panic(fmt.Errorf("unexpected type parameter: %v", t))
 	}
 
+	// An anonymous composite type that mentions a type declared inside of a
+	// generic function implicitly depends on the type arguments of that function,
+	// so it can't be shared through a package-level declaration. Construct it in
+	// place instead; the runtime returns the same type for the same components.
+	if dependsOnNestingTypeArgs(ty) {
+		return fmt.Sprintf("($%sType(%s))", strings.ToLower(typeKind(ty)[5:]), fc.initArgs(ty))
+	}
+
 	// For anonymous composite types, generate a synthetic package-level type
 	// declaration, which will be reused for all instances of this type. This
 	// improves performance, since runtime won't have to synthesize the same type
@@ -575,6 +583,66 @@ func (fc *funcContext) typeName(ty types.Type) string {
 	// don't pass in the function context (nest type parameters) to the DCE.
 	fc.pkgCtx.DeclareDCEDep(anonType, nil, nil)
 	return anonType.Name()
+}
+
+// dependsOnNestingTypeArgs returns true if the type refers to a named type
+// declared inside of a generic function or method. Such a type is a different
+// type for each instantiation of the function it is nested in.
+func dependsOnNestingTypeArgs(ty types.Type) bool {
+	seen := map[types.Type]bool{}
+	var visit func(t types.Type) bool
+	visitTuple := func(t *types.Tuple) bool {
+		for i := 0; i < t.Len(); i++ {
+			if visit(t.At(i).Type()) {
+				return true
+			}
+		}
+		return false
+	}
+	visit = func(t types.Type) bool {
+		if t == nil || seen[t] {
+			return false
+		}
+		seen[t] = true
+		switch t := t.(type) {
+		case *types.Named:
+			if fn := typeparams.FindNestingFunc(t.Obj()); fn != nil && fn.Scope().Contains(t.Obj().Pos()) &&
+				typeparams.SignatureTypeParams(fn.Type().(*types.Signature)).Len() > 0 {
+				return true
+			}
+			for i := 0; i < t.TypeArgs().Len(); i++ {
+				if visit(t.TypeArgs().At(i)) {
+					return true
+				}
+			}
+		case *types.Pointer:
+			return visit(t.Elem())
+		case *types.Slice:
+			return visit(t.Elem())
+		case *types.Array:
+			return visit(t.Elem())
+		case *types.Chan:
+			return visit(t.Elem())
+		case *types.Map:
+			return visit(t.Key()) || visit(t.Elem())
+		case *types.Signature:
+			return visitTuple(t.Params()) || visitTuple(t.Results())
+		case *types.Struct:
+			for i := 0; i < t.NumFields(); i++ {
+				if visit(t.Field(i).Type()) {
+					return true
+				}
+			}
+		case *types.Interface:
+			for i := 0; i < t.NumMethods(); i++ {
+				if visit(t.Method(i).Type()) {
+					return true
+				}
+			}
+		}
+		return false
+	}
+	return visit(ty)
 }
 
 // importedPkgVar returns a package-level variable name for accessing an imported
